@@ -16,6 +16,20 @@ CHECKS = {
                 text="For every cut position k (each store/call operation, measured max per shape) and every symbolic store state satisfying the invariant: invariant holds after the cut, completed writes look up to date, the follow-up run repairs without rewriting them.",
                 ref="DESIGN.md §4 C08", note=E1_NOTE + " Stores are atomic by model; file-level death during a write is C11."),
 }
+E2_NOTE = ("Trusted base: z3 (bit-blast + sat), CPython ast, my AST->IR front end and environment model (queue.Queue contract with ANY queued item returned, "
+           "Lock, Thread, networkx successors/predecessor_count, prepare_nodes closed form, fn = start/end events with symbolic outcome), Lipton reduction "
+           "(lock-set fusing recomputed from the source each run). Bounds: the listed (N<=4, W<=3) instances, all schedule lengths (K is checked to be a "
+           "completeness threshold by an unwinding query). Outside: larger graphs/worker counts, real OS scheduling, GIL switch points inside C code.")
+def e2(text, ref):
+    return dict(cat="model_checking", engine="E2-bmc", tech="bounded model checking (z3 bit-vectors) of a transition system generated from the AST of run_function_on_graph.py; counterexample schedules replayed on real threads",
+                text=text, ref=ref, note=E2_NOTE)
+CHECKS.update({
+    "C01": e2("For every instance (concrete 3-node shapes and fully symbolic 2/3-node DAGs, W<=3) the solver shows no interleaving of the real engine statements starts a call before all its ancestors ended successfully; any model is replayed on real threads before it is reported.", "DESIGN.md §4 C01"),
+    "C04": e2("Same transition system: no node's function starts twice in any interleaving, and when run returns normally every node started exactly once.", "DESIGN.md §4 C04"),
+    "C06": e2("Same transition system with symbolic outcomes (ok / Exception / BaseException-only) and max_errors: nothing downstream of a failure starts; run raises iff something failed; the raised NodeError names a failed node and carries that node's exception; with one worker it is the first failure.", "DESIGN.md §4 C06"),
+    "C07": e2("Unwinding query = every interleaving terminates within K steps (no deadlock, no livelock) for every failure pattern and max_errors; at return all threads have exited and nothing is in flight; on cyclic symbolic graphs the run raises before any call starts.", "DESIGN.md §4 C07"),
+    "C10": e2("In-flight calls never exceed W; no lock held while a call runs; failure counts vs max_errors (<= k+W; ==min(k+1, failing roots) for W=1; exhaustive for None); for each concrete instance some schedule reaches min(W, width) calls in flight (else: proven loss of parallelism, replayed with a barrier on the real engine).", "DESIGN.md §4 C10"),
+})
 NOT_YET = {}
 props = [json.loads(l) for l in open(os.path.join(HERE, "properties.jsonl"))]
 checks, na = [], []
